@@ -120,8 +120,25 @@ def _minmax(it, args, kwargs, is_max):
     kwargs = dict(kwargs)
     has_default = "default" in kwargs
     default = kwargs.pop("default", None)
+    key = kwargs.pop("key", None)
     if kwargs:
-        raise SymError("min/max with key")
+        raise SymError("min/max with unknown keyword")
+    if key is not None:
+        xs = _lst(it, args[0]) if len(args) == 1 else list(args)
+        if not xs:
+            if has_default:
+                return default
+            raise I.IRaise(ValueError("min()/max() arg is an empty sequence"))
+        ks = [npm.unwrap0(it.call(key, [e], {})) for e in xs]
+        best = 0
+        for i in range(1, len(xs)):
+            if all(not is_sym(k) for k in (ks[i], ks[best])):
+                better = ks[i] > ks[best] if is_max else ks[i] < ks[best]
+            else:
+                better = it.decide(sym.gt(ks[i], ks[best]) if is_max else sym.lt(ks[i], ks[best]))
+            if better:
+                best = i
+        return xs[best]
     xs = _lst(it, args[0]) if len(args) == 1 else list(args)
     if not xs:
         if has_default and len(args) == 1:
@@ -346,7 +363,25 @@ def b_sorted(it, x, key=None, reverse=False):
     else:
         ks = xs
     if any(is_sym(k) or not isinstance(k, (int, float, str, Fraction, tuple)) for k in ks):
-        raise SymError("sorted() on symbolic keys")
+        if not all(sym.is_num(k) for k in ks):
+            raise SymError("sorted() on symbolic non-numeric keys")
+        order = []                      # stable insertion sort, every comparison a branch decision
+        for i in range(len(xs)):
+            pos = len(order)
+            while pos > 0 and it.decide(sym.lt(ks[i], ks[order[pos - 1]])):
+                pos -= 1
+            order.insert(pos, i)
+        if reverse:                     # sorted(reverse=True) keeps the original order of equal elements
+            groups, out = [], []
+            for i in order:
+                if groups and it.decide(sym.eq(ks[groups[-1][0]], ks[i])):
+                    groups[-1].append(i)
+                else:
+                    groups.append([i])
+            for g in reversed(groups):
+                out.extend(g)
+            order = out
+        return [xs[i] for i in order]
     order = sorted(range(len(xs)), key=lambda i: ks[i], reverse=reverse)
     return [xs[i] for i in order]
 
@@ -906,6 +941,74 @@ def np_argmax(it, x):
     return best
 
 
+def np_hypot(it, a, b):
+    def f(x, y):
+        return sym.sqrt(sym.add(sym.mul(x, x), sym.mul(y, y)), it.decide)
+    return _ret(npm.elementwise(f, _arr(it, a), _arr(it, b)))
+
+
+def np_cross(it, a, b):
+    a, b = _arr(it, a), _arr(it, b)
+    if a.shape == (2,) and b.shape == (2,):
+        return sym.sub(sym.mul(a.data[0], b.data[1]), sym.mul(a.data[1], b.data[0]))
+    if a.shape == (3,) and b.shape == (3,):
+        x, y = a.data, b.data
+        return NDArr([sym.sub(sym.mul(x[1], y[2]), sym.mul(x[2], y[1])), sym.sub(sym.mul(x[2], y[0]), sym.mul(x[0], y[2])),
+                      sym.sub(sym.mul(x[0], y[1]), sym.mul(x[1], y[0]))], (3,))
+    raise SymError("np.cross shapes")
+
+
+def np_cumsum(it, x):
+    a = _arr(it, x)
+    if a.ndim != 1:
+        raise SymError("cumsum ndim")
+    out, acc = [], 0
+    for e in a.data:
+        acc = sym.add(acc, e)
+        out.append(acc)
+    return NDArr(out, (len(out),), a.dtype)
+
+
+def _np_order(it, a):
+    order = []
+    for i in range(len(a.data)):
+        pos = len(order)
+        while pos > 0 and it.decide(sym.lt(a.data[i], a.data[order[pos - 1]])):
+            pos -= 1
+        order.insert(pos, i)
+    return order
+
+
+def np_sort(it, x):
+    a = _arr(it, x)
+    if a.ndim != 1:
+        raise SymError("sort ndim")
+    return NDArr([a.data[i] for i in _np_order(it, a)], a.shape, a.dtype)
+
+
+def np_argsort(it, x, kind=None):
+    a = _arr(it, x)
+    if a.ndim != 1:
+        raise SymError("argsort ndim")
+    if any(is_sym(e) for e in a.data) and kind not in ("stable", "mergesort"):
+        raise SymError("np.argsort of symbolic values without kind='stable' (the order of ties is unspecified)")
+    o = _np_order(it, a)
+    return NDArr(o, (len(o),), "int")
+
+
+def np_array_equal(it, a, b):
+    a, b = _arr(it, a), _arr(it, b)
+    if a.shape != b.shape:
+        return False
+    return sym.b_and(*[_as_bool(it, sym.eq(x, y)) for x, y in zip(a.data, b.data)]) if a.data else True
+
+
+def np_isfinite(it, x):
+    def f(e):
+        return not (isinstance(e, float) and (_math.isnan(e) or _math.isinf(e)))
+    return _ret(npm.unary(f, _arr(it, x), "bool"))
+
+
 def np_argmin(it, x):
     a = _arr(it, x)
     if a.size == 0:
@@ -1009,7 +1112,8 @@ def _np_table():
                  ("split", np_split), ("clip", np_clip), ("max", np_max), ("min", np_min), ("argmax", np_argmax),
                  ("median", np_median), ("isnan", np_isnan), ("linspace", np_linspace),
                  ("intersect1d", np_intersect1d), ("nonzero", np_nonzero), ("transpose", np_transpose),
-                 ("isclose", np_isclose), ("allclose", np_allclose), ("argmin", np_argmin)]:
+                 ("isclose", np_isclose), ("allclose", np_allclose), ("argmin", np_argmin), ("hypot", np_hypot), ("cross", np_cross),
+                 ("cumsum", np_cumsum), ("sort", np_sort), ("argsort", np_argsort), ("array_equal", np_array_equal), ("isfinite", np_isfinite)]:
         t[n] = ModelFn("np." + n, f)
     t["zeros"] = ModelFn("np.zeros", lambda it, shape, dtype="float": npm.zeros(_shape(it, shape)))
     t["ones"] = ModelFn("np.ones", lambda it, shape: npm.ones(_shape(it, shape)))
@@ -1209,7 +1313,11 @@ def library_module(dotted):
         m = LibModule("warnings", {"warn": ModelFn("warnings.warn", lambda it, *a, **k: None)})
     elif dotted == "math":
         m = LibModule("math", {"ceil": ModelFn("math.ceil", _ceil), "sqrt": ModelFn("math.sqrt", lambda it, x: sym.sqrt(x, it.decide)),
-                               "pi": PI_VALUE})
+                               "pi": PI_VALUE,
+                               "hypot": ModelFn("math.hypot", lambda it, x, y: sym.sqrt(sym.add(sym.mul(x, x), sym.mul(y, y)), it.decide)),
+                               "fabs": ModelFn("math.fabs", lambda it, x: sym.py_abs(x)),
+                               "floor": ModelFn("math.floor", lambda it, x: _math.floor(x) if not is_sym(x) else sym.concretize(z3.ToInt(sym.to_arith(x)))),
+                               "isclose": ModelFn("math.isclose", _math_isclose)})
     elif dotted == "os":
         import os
         m = LibModule("os", {"path": LibModule("os.path", {"join": ModelFn("os.path.join", lambda it, *a: os.path.join(*a))})})
@@ -1222,6 +1330,13 @@ def library_module(dotted):
         m = I.OpaqueModule(dotted)
     _LIBS[dotted] = m
     return m
+
+
+def _math_isclose(it, a, b, rel_tol=1e-09, abs_tol=0.0):
+    from fractions import Fraction as _F
+    rt, at = _F(str(rel_tol)), _F(str(abs_tol))
+    d = sym.py_abs(sym.sub(a, b))
+    return sym.b_or(_as_bool(it, sym.le(d, sym.mul(rt, sym.py_abs(a)))), _as_bool(it, sym.le(d, sym.mul(rt, sym.py_abs(b)))), _as_bool(it, sym.le(d, at)))
 
 
 def _ceil(it, x):
